@@ -163,7 +163,23 @@ def judge_deadline(ctx, name, cases):
             ctx.violation({"stage": name, "clause": clause},
                           "%s: %r with the deadline at clock read %s: %s" % (name, case["text"], case["deadline"], clause),
                           dict(case, stage=name))
-    ctx.stage_counts[name] = {"cases": len(cases), "rejected": nrej}
+    # vacuity guard: the enumerated expiry points must reach INTO the production loop - for every input that streams at least two
+    # candidates some cut-short run has to stop with a non-empty proper prefix (an enumeration that only covers regex matching
+    # and sequence enumeration would pass every clause trivially; that happened once, see DESIGN.md section 8)
+    per = {}
+    for case, o in zip(owner, obs):
+        key = (case["text"], case.get("scorer"), case.get("depth"))
+        st = per.setdefault(key, {"full": len(o["full"]), "proper": 0, "expired": 0})
+        if case["deadline"] and any(e["ev"] == "Chk" and e["expired"] for e in o["ev"]):
+            st["expired"] += 1
+            if 0 < len(o["out"]) < len(o["full"]):
+                st["proper"] += 1
+    hollow = [k for k, st in per.items() if st["full"] >= 2 and st["expired"] and not st["proper"]]
+    if hollow:
+        raise MachineryError("expiry points never cut a stream in the middle for %r: the enumeration does not reach the production loop" % (hollow[:3],))
+    ctx.stage_counts[name] = {"cases": len(cases), "rejected": nrej,
+                              "inputs_with_mid_stream_expiry": sum(1 for st in per.values() if st["proper"]),
+                              "mid_stream_expiry_points": sum(st["proper"] for st in per.values())}
     if obs:
         ctx.sample({"stage": name, "case": cases[0], "events_head": obs[0]["ev"][:10], "bound": obs[0]["bound"]})
 
